@@ -487,4 +487,562 @@ theorem packLoop_eq {c w₁ m : Nat} {src : List Nat} (hc : 1 ≤ c) (hw₁ : 1 
   rfl
 end UI
 
+theorem M_mul (c w n : Nat) : M (c * w) n = B w ^ (c * n) := by
+  unfold M B; rw [← Nat.pow_mul]; congr 1; ring
+theorem M_eq_pow' (w n : Nat) : M w n = B w ^ n := M_eq_pow w n
+
+theorem wrapU_nat_of_lt {m u : Nat} (h : u < m) : wrapU m (u : Int) = u := by
+  rw [wrapU_natCast, Nat.mod_eq_of_lt h]
+
+namespace UI
+theorem pack_value {c w₁ T stop : Nat} (rest : List Nat) :
+    U (c * w₁) ((List.range ((stop - 1) / c)).map (dig (c * w₁) T)
+        ++ (T % B w₁ ^ stop / B (c * w₁) ^ ((stop - 1) / c)) :: rest)
+      = T % B w₁ ^ stop + B (c * w₁) ^ ((stop - 1) / c + 1) * U (c * w₁) rest := by
+  rw [U_append, U_map_dig, U_cons]
+  simp only [List.length_map, List.length_range]
+  generalize hq : (stop - 1) / c = q
+  have hdvd : B (c * w₁) ^ q ∣ B w₁ ^ stop := by
+    rw [B_mul, ← Nat.pow_mul]
+    apply Nat.pow_dvd_pow
+    have := Nat.div_mul_le_self (stop - 1) c
+    rw [hq, Nat.mul_comm] at this; omega
+  rw [← Nat.mod_mod_of_dvd T hdvd]
+  generalize T % B w₁ ^ stop = X
+  rw [Nat.mul_add, ← Nat.add_assoc, Nat.mod_add_div, Nat.pow_succ, Nat.mul_assoc]
+
+theorem pack_digit_lt {c w₁ T stop : Nat} (hc : 1 ≤ c) (h0 : 1 ≤ stop) :
+    T % B w₁ ^ stop / B (c * w₁) ^ ((stop - 1) / c) < B (c * w₁) := by
+  apply Nat.div_lt_of_lt_mul
+  have h1 := Nat.div_add_mod (stop - 1) c
+  have h2 := Nat.mod_lt (stop - 1) (show 0 < c by omega)
+  have : B w₁ ^ stop ≤ B (c * w₁) ^ ((stop - 1) / c) * B (c * w₁) := by
+    rw [← Nat.pow_succ, B_mul, ← Nat.pow_mul]
+    apply B_pow_le
+    rw [Nat.mul_succ]; omega
+  exact Nat.lt_of_lt_of_le (Nat.mod_lt _ (Nat.pow_pos (B_pos _))) this
+
+theorem castFromUD_split_spec {c w₂ m : Nat} {src : List Nat} (n : Nat) (hc : 2 ≤ c) (hw₂ : 1 ≤ w₂)
+    (hs : WF (c * w₂) m src) :
+    CastOk w₂ n (castFromUD (c * w₂) src w₂ n) (U (c * w₂) src) := by
+  unfold castFromUD
+  have hlt : w₂ < c * w₂ := by nlinarith
+  have hdc : c * w₂ / w₂ = c := Nat.mul_div_cancel _ (by omega)
+  simp only [hlt, if_true, hs.1, hdc]
+  have hT := U_lt hs
+  rw [M_mul] at hT
+  split
+  · rename_i h
+    have h' : n < m * c := by
+      rw [← Nat.mul_assoc] at h; exact Nat.lt_of_mul_lt_mul_right h
+    rw [splitLoop_eq (by omega) hw₂ hs _ (by simp [zero]) (by omega)]
+    generalize U (c * w₂) src = T at *
+    refine ⟨_, rfl, ?_, ?_⟩
+    · simp only [zero, List.drop_replicate, Nat.sub_self, List.replicate_zero, List.append_nil]
+      exact WF_map_dig w₂ _ n
+    · simp only [zero, List.drop_replicate, Nat.sub_self, List.replicate_zero, List.append_nil]
+      rw [U_map_dig, wrapU_natCast, M_eq_pow]
+  · rename_i h
+    have h' : m * c ≤ n := by
+      rw [← Nat.mul_assoc] at h; exact Nat.le_of_mul_le_mul_right (by omega) (by omega : 0 < w₂)
+    rw [splitLoop_eq (by omega) hw₂ hs _ (by simp [zero]; omega) (by omega)]
+    generalize U (c * w₂) src = T at *
+    have hTn : T < M w₂ n := by
+      rw [M_eq_pow]; exact Nat.lt_of_lt_of_le hT (B_pow_le (by rw [Nat.mul_comm]; exact h'))
+    refine ⟨_, rfl, ?_, ?_⟩
+    · simp only [zero, List.drop_replicate]
+      have := WF_append (WF_map_dig w₂ T (m * c)) (WF_replicate (w := w₂) (n - m * c) (B_pos w₂))
+      rwa [show m * c + (n - m * c) = n by omega] at this
+    · simp only [zero, List.drop_replicate]
+      rw [U_append_replicate_zero, U_map_dig, wrapU_nat_of_lt hTn, Nat.mul_comm m c,
+        Nat.mod_eq_of_lt hT]
+
+theorem castFromUD_pack_spec {c w₁ m : Nat} {src : List Nat} {n : Nat} (hc : 1 ≤ c) (hw₁ : 1 ≤ w₁)
+    (hm : 1 ≤ m) (hn : 1 ≤ n) (hs : WF w₁ m src) :
+    CastOk (c * w₁) n (castFromUD w₁ src (c * w₁) n) (U w₁ src) := by
+  unfold castFromUD
+  have hlt : ¬ c * w₁ < w₁ := by nlinarith
+  have hdc : c * w₁ / w₁ = c := Nat.mul_div_cancel _ (by omega)
+  simp only [hlt, if_false, hs.1, hdc]
+  have hT := U_lt hs
+  rw [M_eq_pow] at hT
+  split
+  · rename_i h
+    have h' : n * c < m := by
+      rw [← Nat.mul_assoc] at h; exact Nat.lt_of_mul_lt_mul_right h
+    have h1 : 1 ≤ n * c := Nat.mul_pos (by omega) (by omega)
+    rw [packLoop_eq hc hw₁ hs _ h1 (by omega) (by simp [zero])]
+    have hq : (n * c - 1) / c + 1 = n := by
+      have : (n * c - 1) / c = n - 1 := by
+        apply Nat.div_eq_of_lt_le
+        · rw [Nat.sub_mul]; omega
+        · rw [Nat.sub_add_cancel hn]; omega
+      omega
+    generalize U w₁ src = T at *
+    refine ⟨_, rfl, ?_, ?_⟩
+    · simp only [zero, List.drop_replicate, hq, Nat.sub_self, List.replicate_zero]
+      have := WF_append (WF_map_dig (c * w₁) T ((n * c - 1) / c))
+        (show WF (c * w₁) 1 [T % B w₁ ^ (n * c) / B (c * w₁) ^ ((n * c - 1) / c)] from
+          ⟨rfl, by simpa using pack_digit_lt hc h1⟩)
+      rwa [hq] at this
+    · rw [pack_value]
+      simp only [zero, List.drop_replicate, hq, Nat.sub_self, List.replicate_zero, U_nil,
+        Nat.mul_zero, Nat.add_zero]
+      rw [wrapU_natCast, M_mul, Nat.mul_comm n c]
+  · rename_i h
+    have h' : m ≤ n * c := by
+      rw [← Nat.mul_assoc] at h; exact Nat.le_of_mul_le_mul_right (by omega) (by omega : 0 < w₁)
+    rw [packLoop_eq hc hw₁ hs _ hm (Nat.le_refl _) (by simpa [zero] using h')]
+    have hq : (m - 1) / c + 1 ≤ n := by
+      have : (m - 1) / c < n := (Nat.div_lt_iff_lt_mul (by omega)).2 (by omega)
+      omega
+    have hTn : U w₁ src < M (c * w₁) n := by
+      rw [M_mul]; exact Nat.lt_of_lt_of_le hT (B_pow_le (by rw [Nat.mul_comm]; exact h'))
+    generalize U w₁ src = T at *
+    refine ⟨_, rfl, ?_, ?_⟩
+    · simp only [zero, List.drop_replicate]
+      have := WF_append (WF_append (WF_map_dig (c * w₁) T ((m - 1) / c))
+        (show WF (c * w₁) 1 [T % B w₁ ^ m / B (c * w₁) ^ ((m - 1) / c)] from
+          ⟨rfl, by simpa using pack_digit_lt hc hm⟩))
+        (WF_replicate (w := c * w₁) (n - ((m - 1) / c + 1)) (B_pos _))
+      rw [show (m - 1) / c + 1 + (n - ((m - 1) / c + 1)) = n by omega] at this
+      simpa using this
+    · rw [pack_value]
+      simp only [zero, List.drop_replicate, U_replicate_zero, Nat.mul_zero, Nat.add_zero]
+      rw [wrapU_nat_of_lt hTn, Nat.mod_eq_of_lt hT]
+end UI
+
+/-- De Morgan on `k`-bit words -/
+theorem not_and_not {k a b : Nat} (ha : a < B k) (hb : b < B k) :
+    Prim.not k a &&& Prim.not k b = Prim.not k (a ||| b) := by
+  unfold Prim.not
+  have hab : a ||| b < B k := Nat.or_lt_two_pow ha hb
+  unfold B at *
+  apply Nat.eq_of_testBit_eq
+  intro i
+  rw [Nat.testBit_and, Nat.sub_sub, Nat.sub_sub, Nat.sub_sub, Nat.add_comm 1 a, Nat.add_comm 1 b,
+    Nat.add_comm 1 (a ||| b), Nat.testBit_two_pow_sub_succ ha, Nat.testBit_two_pow_sub_succ hb,
+    Nat.testBit_two_pow_sub_succ hab, Nat.testBit_or]
+  cases decide (i < k) <;> cases a.testBit i <;> cases b.testBit i <;> rfl
+
+theorem not_lt (k a : Nat) : Prim.not k a < B k := by
+  unfold Prim.not; have := B_pos k; omega
+theorem not_not {k a : Nat} (ha : a < B k) : Prim.not k (Prim.not k a) = a := by
+  unfold Prim.not; omega
+
+namespace Arr
+theorem forN_conj {σ} (φ : σ → σ) (P : σ → Prop) (b₁ b₂ : Nat → σ → Outcome σ)
+    (hP : ∀ i s s', P s → b₁ i s = .ok s' → P s')
+    (h : ∀ i s, P s → b₂ i (φ s) = (b₁ i s).map φ) :
+    ∀ k i s, P s → forN b₂ k i (φ s) = (forN b₁ k i s).map φ := by
+  intro k
+  induction k with
+  | zero => intro i s _; rfl
+  | succ k ih =>
+    intro i s hs
+    rw [forN, forN, h i s hs]
+    cases hb : b₁ i s with
+    | panic => rfl
+    | ok s' => exact ih (i + 1) s' (hP i s s' hs hb)
+
+theorem idx_map (f : Nat → Nat) (a : List Nat) (i : Nat) : idx (a.map f) i = (idx a i).map f := by
+  unfold idx; rw [List.getElem?_map]; cases a[i]? <;> rfl
+theorem upd_map (f : Nat → Nat) (a : List Nat) (i d : Nat) :
+    upd (a.map f) i (f d) = (upd a i d).map (List.map f) := by
+  unfold upd; rw [List.length_map]; split
+  · simp [List.map_set]
+  · rfl
+end Arr
+
+namespace UI
+/-- the body of `packLoopNeg` -/
+def packBodyNeg (w₁ w₂ : Nat) (src : List Nat) (stop : Nat) (i : Nat) (st : Nat × List Nat) :
+    Outcome (Nat × List Nat) :=
+  let divideCount := w₂ / w₁
+  let miniShift := i % divideCount
+  (idx src i).bind fun d =>
+  (PInt.shl w₂ (PInt.cast w₁ false w₂ (Prim.not w₁ d)) (miniShift * w₁)).bind fun sh =>
+    let cur := st.1 &&& Prim.not w₂ sh
+    if miniShift == divideCount - 1 || i == stop - 1 then
+      (upd st.2 (i / divideCount) cur).bind fun out => .ok (B w₂ - 1, out)
+    else .ok (cur, st.2)
+
+theorem packLoopNeg_def (w₁ w₂ : Nat) (src : List Nat) (stop : Nat) (out : List Nat) :
+    packLoopNeg w₁ w₂ src stop out
+      = (forN (packBodyNeg w₁ w₂ src stop) stop 0 (B w₂ - 1, out)).map (·.2) := rfl
+
+theorem shl_lt (k a s : Nat) {r : Nat} (h : PInt.shl k a s = .ok r) : r < B k := by
+  unfold PInt.shl at h; split at h
+  · injection h with h; subst h; exact Nat.mod_lt _ (B_pos k)
+  · cases h
+
+/-- the and-not loop is the or loop on the complemented source, complemented -/
+theorem packLoopNeg_conj (w₁ w₂ : Nat) (src : List Nat) (stop : Nat) (out : List Nat) :
+    packLoopNeg w₁ w₂ src stop (bnot w₂ out)
+      = (packLoop w₁ w₂ (bnot w₁ src) stop out).map (bnot w₂) := by
+  rw [packLoopNeg_def, packLoop_def]
+  have key := forN_conj (fun st : Nat × List Nat => (Prim.not w₂ st.1, bnot w₂ st.2))
+    (fun st => st.1 < B w₂) (packBody w₁ w₂ (bnot w₁ src) stop) (packBodyNeg w₁ w₂ src stop)
+    ?_ ?_ stop 0 (0, out) (B_pos w₂)
+  · have e : (Prim.not w₂ 0, bnot w₂ out) = (B w₂ - 1, bnot w₂ out) := by simp [Prim.not]
+    simp only at key
+    rw [e] at key
+    rw [key]
+    cases forN (packBody w₁ w₂ (bnot w₁ src) stop) stop 0 (0, out) <;> rfl
+  · intro i s s' hs hb
+    unfold packBody at hb
+    simp only at hb
+    cases h1 : idx (bnot w₁ src) i with
+    | panic => rw [h1] at hb; cases hb
+    | ok d =>
+      rw [h1, Outcome.bind_ok] at hb
+      cases h2 : PInt.shl w₂ (PInt.cast w₁ false w₂ d) (i % (w₂ / w₁) * w₁) with
+      | panic => rw [h2] at hb; cases hb
+      | ok sh =>
+        rw [h2, Outcome.bind_ok] at hb
+        split at hb
+        · cases h3 : upd s.2 (i / (w₂ / w₁)) (s.1 ||| sh) with
+          | panic => rw [h3] at hb; cases hb
+          | ok o => rw [h3] at hb; injection hb with hb; subst hb; exact B_pos w₂
+        · injection hb with hb; subst hb
+          exact Nat.or_lt_two_pow hs (shl_lt _ _ _ h2)
+  · intro i s hs
+    unfold packBody packBodyNeg
+    simp only [bnot]
+    rw [idx_map]
+    cases idx src i with
+    | panic => rfl
+    | ok d =>
+      simp only [Outcome.map_ok, Outcome.bind_ok]
+      cases h2 : PInt.shl w₂ (PInt.cast w₁ false w₂ (Prim.not w₁ d)) (i % (w₂ / w₁) * w₁) with
+      | panic => rfl
+      | ok sh =>
+        simp only [Outcome.bind_ok]
+        rw [not_and_not hs (shl_lt _ _ _ h2)]
+        split
+        · rw [upd_map]
+          cases upd s.2 (i / (w₂ / w₁)) (s.1 ||| sh) with
+          | panic => rfl
+          | ok o => simp [Prim.not]
+        · rfl
+
+theorem bnot_zero (w n : Nat) : bnot w (zero n) = allOnes w n := by
+  simp [bnot, zero, allOnes, Prim.not]
+end UI
+
+/-- a cast computed from the bit pattern is right for a signed source when the source is
+    non-negative or the target is not wider -/
+theorem CastOk.of_U {w₁ m w n : Nat} {src : List Nat} {o : Outcome (List Nat)}
+    (hs : WF w₁ m src) (h : CastOk w n o (U w₁ src)) (hc : 0 ≤ S w₁ src ∨ M w n ∣ M w₁ m) :
+    CastOk w n o (S w₁ src) := by
+  obtain ⟨r, ho, hr, hu⟩ := h
+  refine ⟨r, ho, hr, ?_⟩
+  rw [hu]
+  rcases hc with hc | hc
+  · rw [S_of_nonneg hs hc]
+  · rw [S_eq hs, wrapU_toInt_dvd (M_pos w n) hc, wrapU_natCast]
+
+theorem M_dvd_of_le {w₁ m w₂ n : Nat} (h : w₂ * n ≤ w₁ * m) : M w₂ n ∣ M w₁ m := by
+  unfold M; exact Nat.pow_dvd_pow _ h
+theorem M_le_of_le {w₁ m w₂ n : Nat} (h : w₁ * m ≤ w₂ * n) : M w₁ m ≤ M w₂ n := by
+  unfold M; exact Nat.pow_le_pow_right (by decide) h
+
+/-- value of a sign-extended negative number -/
+theorem wrapU_S_neg_widen {w₁ m w₂ n : Nat} {src : List Nat} (hs : WF w₁ m src)
+    (hneg : S w₁ src < 0) (hle : M w₁ m ≤ M w₂ n) :
+    wrapU (M w₂ n) (S w₁ src) + M w₁ m = U w₁ src + M w₂ n := by
+  have hu := U_lt hs
+  have : wrapU (M w₂ n) (S w₁ src) = U w₁ src + M w₂ n - M w₁ m :=
+    wrapU_eq_of (by omega) (k := -1) (by rw [S_of_neg hs hneg]; omega)
+  omega
+
+namespace UI
+theorem castFromID_split_spec {c w₂ m : Nat} {src : List Nat} (n : Nat) (hc : 2 ≤ c)
+    (hw₂ : 1 ≤ w₂) (hm : 1 ≤ m) (hs : WF (c * w₂) m src) :
+    CastOk w₂ n (castFromID (c * w₂) src w₂ n) (S (c * w₂) src) := by
+  have hw₁ : 1 ≤ c * w₂ := Nat.mul_pos (by omega) hw₂
+  have hneg := isNegative_eq_decide hw₁ hm hs
+  unfold castFromID
+  rw [hs.1, hneg]
+  by_cases h1 : S (c * w₂) src < 0
+  · by_cases h2 : m * (c * w₂) ≥ n * w₂
+    · simp only [h1, h2, decide_true, Bool.not_true, Bool.false_or, if_true]
+      exact (castFromUD_split_spec n hc hw₂ hs).of_U hs
+        (Or.inr (M_dvd_of_le (by rw [Nat.mul_comm w₂ n, Nat.mul_comm _ m]; exact h2)))
+    · simp only [h1, h2, decide_true, decide_false, Bool.not_true, Bool.false_or,
+        Bool.false_eq_true, if_false]
+      have hlt : w₂ < c * w₂ := by nlinarith
+      have hdc : c * w₂ / w₂ = c := Nat.mul_div_cancel _ (by omega)
+      have h3 : ¬ m * (c * w₂) > n * w₂ := by omega
+      simp only [hlt, if_true, h3, if_false, hdc]
+      have h' : m * c ≤ n := by
+        have : m * (c * w₂) ≤ n * w₂ := by omega
+        rw [← Nat.mul_assoc] at this
+        exact Nat.le_of_mul_le_mul_right this (by omega : 0 < w₂)
+      rw [splitLoop_eq (by omega) hw₂ hs _ (by simp [allOnes]; omega) (Nat.le_refl _)]
+      have hT := U_lt hs
+      have hmod : U (c * w₂) src % B w₂ ^ (m * c) = U (c * w₂) src := by
+        rw [M_mul] at hT; rw [Nat.mul_comm m c]; exact Nat.mod_eq_of_lt hT
+      have hle : M (c * w₂) m ≤ M w₂ n := M_le_of_le (by
+        rw [Nat.mul_comm w₂ n, Nat.mul_comm _ m]; omega)
+      have hv := wrapU_S_neg_widen hs h1 hle
+      generalize U (c * w₂) src = T at *
+      have hwf := WF_map_dig w₂ T (m * c)
+      refine ⟨_, rfl, ?_, ?_⟩
+      · simp only [allOnes, List.drop_replicate]
+        have := WF_append hwf (WF_replicate (w := w₂) (n - m * c)
+          (show B w₂ - 1 < B w₂ by have := B_pos w₂; omega))
+        rwa [show m * c + (n - m * c) = n by omega] at this
+      · simp only [allOnes, List.drop_replicate]
+        have := U_append_replicate_max w₂ hwf (n - m * c)
+        rw [U_map_dig, hmod, show m * c + (n - m * c) = n by omega] at this
+        have e : M w₂ (m * c) = M (c * w₂) m := by unfold M; congr 1; ring
+        rw [e] at this
+        omega
+  · simp only [h1, decide_false, Bool.not_false, Bool.true_or, if_true]
+    exact (castFromUD_split_spec n hc hw₂ hs).of_U hs (Or.inl (by omega))
+
+theorem castFromID_pack_spec {c w₁ m : Nat} {src : List Nat} {n : Nat} (hc : 1 ≤ c)
+    (hw₁ : 1 ≤ w₁) (hm : 1 ≤ m) (hn : 1 ≤ n) (hs : WF w₁ m src) :
+    CastOk (c * w₁) n (castFromID w₁ src (c * w₁) n) (S w₁ src) := by
+  have hneg := isNegative_eq_decide hw₁ hm hs
+  unfold castFromID
+  rw [hs.1, hneg]
+  by_cases h1 : S w₁ src < 0
+  · by_cases h2 : m * w₁ ≥ n * (c * w₁)
+    · simp only [h1, h2, decide_true, Bool.not_true, Bool.false_or, if_true]
+      exact (castFromUD_pack_spec hc hw₁ hm hn hs).of_U hs
+        (Or.inr (M_dvd_of_le (by rw [Nat.mul_comm _ n, Nat.mul_comm _ m]; exact h2)))
+    · simp only [h1, h2, decide_true, decide_false, Bool.not_true, Bool.false_or,
+        Bool.false_eq_true, if_false]
+      have hlt : ¬ c * w₁ < w₁ := by nlinarith
+      have h3 : ¬ m * w₁ > n * (c * w₁) := by omega
+      simp only [hlt, if_false, h3]
+      -- the unsigned cast of the complemented source
+      have hUD := castFromUD_pack_spec hc hw₁ hm hn (WF_bnot hs)
+      unfold castFromUD at hUD
+      rw [(WF_bnot hs).1] at hUD
+      simp only [hlt, if_false, h3] at hUD
+      obtain ⟨r', hr', hwf', hu'⟩ := hUD
+      rw [← bnot_zero, packLoopNeg_conj, hr']
+      refine ⟨_, rfl, WF_bnot hwf', ?_⟩
+      have hle : M w₁ m ≤ M (c * w₁) n := M_le_of_le (by
+        rw [Nat.mul_comm _ n, Nat.mul_comm _ m]; omega)
+      have hv := wrapU_S_neg_widen hs h1 hle
+      rw [U_bnot hwf', hu', U_bnot hs]
+      have hT := U_lt hs
+      rw [wrapU_nat_of_lt (by omega)]
+      omega
+  · simp only [h1, decide_false, Bool.not_false, Bool.true_or, if_true]
+    exact (castFromUD_pack_spec hc hw₁ hm hn hs).of_U hs (Or.inl (by omega))
+end UI
+
+theorem take_succ_getD (x : List Nat) {i : Nat} (h : i < x.length) :
+    x.take (i + 1) = x.take i ++ [x.getD i 0] := by
+  rw [List.take_succ_eq_append_getElem h]; simp [List.getD, List.getElem?_eq_getElem h]
+
+theorem U_take_succ (w : Nat) (x : List Nat) {i : Nat} (h : i < x.length) :
+    U w (x.take (i + 1)) = U w (x.take i) + B w ^ i * x.getD i 0 := by
+  rw [take_succ_getD x h, U_append, List.length_take, Nat.min_eq_left (by omega)]; simp
+
+theorem getD_lt {w n : Nat} {x : List Nat} (hx : WF w n x) (i : Nat) : x.getD i 0 < B w := by
+  by_cases h : i < x.length
+  · simp only [List.getD, List.getElem?_eq_getElem h, Option.getD_some]
+    exact hx.2 _ (List.getElem_mem _)
+  · have : x[i]? = none := List.getElem?_eq_none (by omega)
+    simp only [List.getD, this, Option.getD_none]; exact B_pos w
+
+/-- `digit as $int` on patterns -/
+theorem cast_digit {w k d : Nat} (hd : d < B w) : PInt.cast w false k d = d % B k := by
+  unfold PInt.cast
+  split
+  · rfl
+  · rename_i h
+    simp only [Bool.false_and, Bool.false_eq_true, if_false]
+    have : B w ≤ B k := Nat.pow_le_pow_right (by decide) (by omega)
+    rw [Nat.mod_eq_of_lt (by omega)]
+
+/-- one step of an "or the next digit in" loop -/
+theorem asm_step {w k i : Nat} {x : List Nat} {n : Nat} (hx : WF w n x) (hi : i < n)
+    (hik : i * w < k) :
+    (U w (x.take i) % B k) ||| ((x.getD i 0 % B k) * 2 ^ (i * w)) % B k
+      = U w (x.take (i + 1)) % B k := by
+  have hti := U_lt (WF_take i hx)
+  rw [Nat.min_eq_left (by omega), M_eq_pow] at hti
+  have hd := getD_lt hx i
+  rw [U_take_succ w x (by rw [hx.1]; exact hi)]
+  have e1 : B w ^ i = 2 ^ (i * w) := by rw [← B_mul]; rfl
+  have e2 : B k = 2 ^ (i * w) * 2 ^ (k - i * w) := by
+    rw [← Nat.pow_add]; unfold B; congr 1; omega
+  rw [e1] at hti ⊢
+  generalize U w (x.take i) = t at *
+  generalize x.getD i 0 = d at *
+  have hp : 0 < 2 ^ (k - i * w) := Nat.pow_pos (by decide)
+  have hlt : t < B k := by
+    rw [e2]; exact Nat.lt_of_lt_of_le hti (Nat.le_mul_of_pos_right _ hp)
+  rw [Nat.mod_eq_of_lt hlt]
+  have e3 : d % B k * 2 ^ (i * w) % B k = 2 ^ (i * w) * (d % 2 ^ (k - i * w)) := by
+    rw [Nat.mul_mod, Nat.mod_mod, ← Nat.mul_mod, e2, Nat.mul_comm d, Nat.mul_mod_mul_left]
+  have e4 : t ||| 2 ^ (i * w) * (d % 2 ^ (k - i * w)) = t + 2 ^ (i * w) * (d % 2 ^ (k - i * w)) := by
+    rw [Nat.mul_comm]; exact or_shl_eq_add hti
+  rw [e3, e4, e2, add_mul_mod_mul hti hp]
+
+theorem U_mod_of_take {w n : Nat} {x : List Nat} (hx : WF w n x) {i k : Nat}
+    (h : i = n ∨ k ≤ i * w) (hi : i ≤ n) : U w (x.take i) % B k = U w x % B k := by
+  rcases h with h | h
+  · subst h; rw [List.take_of_length_le (Nat.le_of_eq hx.1)]
+  · have h1 := U_take_add_drop w x i
+    rw [hx.1, Nat.min_eq_left hi] at h1
+    have : B k ∣ B w ^ i := by
+      rw [← B_mul]; unfold B; exact Nat.pow_dvd_pow _ h
+    obtain ⟨c, hc⟩ := this
+    rw [h1, hc, Nat.mul_assoc, Nat.add_mul_mod_self_left]
+
+/-- the assembling loop of `try_from_buint!` / `int_try_from_bint!` -/
+theorem asmOrLoop_spec {w k n : Nat} {x : List Nat} (hx : WF w n x) :
+    ∀ (f i : Nat), f + i = n →
+    ∃ i', asmOrLoop w k x f i (U w (x.take i) % B k) = .ok (U w (x.take i') % B k, i')
+      ∧ i ≤ i' ∧ i' ≤ n ∧ (i' = n ∨ k ≤ i' * w) ∧ (∀ j, i ≤ j → j < i' → j * w < k) := by
+  intro f
+  induction f with
+  | zero =>
+    intro i hi
+    exact ⟨i, rfl, Nat.le_refl _, by omega, Or.inl (by omega), fun j h1 h2 => by omega⟩
+  | succ f ih =>
+    intro i hi
+    unfold asmOrLoop
+    by_cases hik : i * w < k
+    · have hin : i < x.length := by rw [hx.1]; omega
+      have hc : (decide (i ≥ x.length) || decide (i * w ≥ k)) = false := by simp; omega
+      simp only [hc, Bool.false_eq_true, if_false]
+      rw [idx_getD hin, Outcome.bind_ok, cast_digit (getD_lt hx i)]
+      unfold PInt.shl
+      rw [if_pos hik, Outcome.bind_ok, asm_step hx (by omega) hik]
+      obtain ⟨i', h1, h2, h3, h4, h5⟩ := ih (i + 1) (by omega)
+      refine ⟨i', h1, by omega, h3, h4, ?_⟩
+      intro j hj1 hj2
+      by_cases hji : j = i
+      · subst hji; exact hik
+      · exact h5 j (by omega) hj2
+    · have hc : (decide (i ≥ x.length) || decide (i * w ≥ k)) = true := by simp; omega
+      simp only [hc, if_true]
+      exact ⟨i, rfl, Nat.le_refl _, by omega, Or.inr (by omega), fun j h1 h2 => by omega⟩
+
+theorem asIntLoop_eq_asm (w k : Nat) (x : List Nat) : ∀ (f i out : Nat), f + i = x.length →
+    UI.asIntLoop w k x f i out = (asmOrLoop w k x f i out).map (·.1) := by
+  intro f
+  induction f with
+  | zero => intro i out _; rfl
+  | succ f ih =>
+    intro i out hi
+    unfold UI.asIntLoop asmOrLoop
+    by_cases hik : i * w < k
+    · have hc : (decide (i ≥ x.length) || decide (i * w ≥ k)) = false := by simp; omega
+      simp only [hik, if_true, hc, Bool.false_eq_true, if_false]
+      cases idx x i with
+      | panic => rfl
+      | ok d =>
+        simp only [Outcome.bind_ok]
+        cases PInt.shl k (PInt.cast w false k d) (i * w) with
+        | panic => rfl
+        | ok sh => simp only [Outcome.bind_ok]; exact ih (i + 1) _ (by omega)
+    · have hc : (decide (i ≥ x.length) || decide (i * w ≥ k)) = true := by simp; omega
+      simp only [hik, if_false, hc, if_true]; rfl
+
+/-- C09: `BUint<N> as $int` is the value modulo `2^BITS` of the target, and never panics -/
+theorem UI.castToPrim_eq {w n : Nat} {x : List Nat} (hx : WF w n x) (t : PTy) :
+    UI.castToPrim w x t = .ok (U w x % B t.bits) := by
+  unfold UI.castToPrim
+  rw [asIntLoop_eq_asm w t.bits x x.length 0 0 (by omega)]
+  obtain ⟨i', h1, _, h3, h4, _⟩ := asmOrLoop_spec (k := t.bits) hx x.length 0 (by rw [hx.1]; rfl)
+  simp only [List.take_zero, U_nil, Nat.zero_mod] at h1
+  rw [h1, Outcome.map_ok, U_mod_of_take hx h4 h3]
+
+theorem wrapU_neg_succ {m : Nat} (hm : 0 < m) (a : Nat) :
+    wrapU m (-((a : Int) + 1)) = m - 1 - a % m := by
+  have h1 := Nat.mod_lt a hm
+  have h2 := Nat.mod_add_div a m
+  refine wrapU_eq_of (by omega) (k := -((a / m : Nat) : Int) - 1) ?_
+  have : ((a % m : Nat) : Int) + (m : Int) * ((a / m : Nat) : Int) = a := by exact_mod_cast h2
+  have e : ((m - 1 - a % m : Nat) : Int) = (m : Int) - 1 - (a % m : Nat) := by omega
+  rw [e]; nlinarith [this]
+
+/-- the and-not assembling loop is the or loop on the complemented digits, complemented -/
+theorem asmAndNotLoop_conj (w k : Nat) (x : List Nat) : ∀ (f i out : Nat), out < B k →
+    asmAndNotLoop w k x f i (Prim.not k out)
+      = (asmOrLoop w k (bnot w x) f i out).map (fun r => (Prim.not k r.1, r.2)) := by
+  intro f
+  induction f with
+  | zero => intro i out _; rfl
+  | succ f ih =>
+    intro i out hout
+    unfold asmAndNotLoop asmOrLoop
+    have hl : (bnot w x).length = x.length := by simp [bnot]
+    rw [hl]
+    dsimp only
+    by_cases hc : (decide (i ≥ x.length) || decide (i * w ≥ k)) = true
+    · simp only [hc, if_true]; rfl
+    · simp only [hc, if_false, bnot]
+      rw [idx_map]
+      cases idx x i with
+      | panic => rfl
+      | ok d =>
+        simp only [Outcome.map_ok, Outcome.bind_ok]
+        cases h2 : PInt.shl k (PInt.cast w false k (Prim.not w d)) (i * w) with
+        | panic => rfl
+        | ok sh =>
+          simp only [Outcome.bind_ok]
+          rw [not_and_not hout (UI.shl_lt _ _ _ h2)]
+          exact ih (i + 1) _ (Nat.or_lt_two_pow hout (UI.shl_lt _ _ _ h2))
+
+theorem asIntLoopNeg_eq_asm (w k : Nat) (x : List Nat) : ∀ (f i out : Nat), f + i = x.length →
+    II.asIntLoopNeg w k x f i out = (asmAndNotLoop w k x f i out).map (·.1) := by
+  intro f
+  induction f with
+  | zero => intro i out _; rfl
+  | succ f ih =>
+    intro i out hi
+    unfold II.asIntLoopNeg asmAndNotLoop
+    by_cases hik : i * w < k
+    · have hc : (decide (i ≥ x.length) || decide (i * w ≥ k)) = false := by simp; omega
+      simp only [hik, if_true, hc, Bool.false_eq_true, if_false]
+      cases idx x i with
+      | panic => rfl
+      | ok d =>
+        simp only [Outcome.bind_ok]
+        cases PInt.shl k (PInt.cast w false k (Prim.not w d)) (i * w) with
+        | panic => rfl
+        | ok sh => simp only [Outcome.bind_ok]; exact ih (i + 1) _ (by omega)
+    · have hc : (decide (i ≥ x.length) || decide (i * w ≥ k)) = true := by simp; omega
+      simp only [hik, if_false, hc, if_true]; rfl
+
+/-- value of the and-not assembling loop started from all ones -/
+theorem asmAndNotLoop_spec {w k n : Nat} {x : List Nat} (hx : WF w n x) :
+    ∃ i', asmAndNotLoop w k x n 0 (Prim.not k 0)
+        = .ok (Prim.not k (U w ((bnot w x).take i') % B k), i')
+      ∧ i' ≤ n ∧ (i' = n ∨ k ≤ i' * w) ∧ (∀ j, j < i' → j * w < k) := by
+  rw [asmAndNotLoop_conj w k x n 0 0 (B_pos k)]
+  obtain ⟨i', h1, _, h3, h4, h5⟩ := asmOrLoop_spec (k := k) (WF_bnot hx) n 0 (by omega)
+  simp only [List.take_zero, U_nil, Nat.zero_mod] at h1
+  rw [h1]
+  exact ⟨i', rfl, h3, h4, fun j hj => h5 j (by omega) hj⟩
+
+/-- C09: `BInt<N> as $int` -/
+theorem II.castToPrim_eq {w n : Nat} {x : List Nat} (hw : 1 ≤ w) (hn : 1 ≤ n) (hx : WF w n x)
+    (t : PTy) : II.castToPrim w x t = .ok (wrapU (B t.bits) (S w x)) := by
+  unfold II.castToPrim II.toBits
+  rw [isNegative_eq_decide hw hn hx]
+  by_cases hneg : S w x < 0
+  · simp only [hneg, decide_true, if_true]
+    rw [asIntLoopNeg_eq_asm w t.bits x x.length 0 _ (by omega), hx.1]
+    obtain ⟨i', h1, h3, h4, _⟩ := asmAndNotLoop_spec (k := t.bits) hx
+    rw [h1, Outcome.map_ok, U_mod_of_take (WF_bnot hx) h4 h3, U_bnot hx, S_of_neg hx hneg]
+    congr 1
+    have hu := U_lt hx
+    have e : (U w x : Int) - M w n = -(((M w n - 1 - U w x : Nat) : Int) + 1) := by omega
+    rw [e, wrapU_neg_succ (B_pos _)]
+    rfl
+  · simp only [hneg, decide_false, Bool.false_eq_true, if_false]
+    rw [UI.castToPrim_eq hx, S_of_nonneg hx (by omega), wrapU_natCast]
+
 end Bnum
